@@ -75,7 +75,13 @@ func (f *F) fit(v *big.Int) *big.Int {
 func (f *F) Operand(t *rapid.T, label string) (*big.Int, string) {
 	var v *big.Int
 	var class string
-	switch rapid.IntRange(0, 9).Draw(t, label+".k") {
+	switch rapid.IntRange(0, 10).Draw(t, label+".k") {
+	case 10:
+		// a single set bit or a one-limb mask in the INTERNAL representation (a·R for Montgomery types):
+		// what an equality / zero test that looks at only part of the limbs would miss
+		pats := f.InternalPatterns()
+		v = f.FromInternal(pats[rapid.IntRange(0, len(pats)-1).Draw(t, label+".pat")])
+		class = "internal-bit"
 	case 0, 1:
 		// multiples of P and their neighbours
 		quo := new(big.Int).Div(new(big.Int).Sub(Pow2(f.Bits), one), f.P)
@@ -134,6 +140,76 @@ func (f *F) Operand(t *rapid.T, label string) (*big.Int, string) {
 		}
 	}
 	return v, class
+}
+
+// InternalPatterns lists the internal-representation patterns used by the
+// predicate sweeps: every single bit 2^k and, per 64-bit limb, the masks
+// 0xffffffff00000000, 0x00000000ffffffff, 0xffffffffffffffff, 0x8000000000000000
+// — restricted to patterns inside the operand domain.
+func (f *F) InternalPatterns() []*big.Int {
+	var out []*big.Int
+	lim := Pow2(f.Bits)
+	if f.Reduced {
+		lim = f.P
+	}
+	for k := 0; k < f.Bits; k++ {
+		if v := Pow2(k); v.Cmp(lim) < 0 {
+			out = append(out, v)
+		}
+	}
+	for l := 0; 64*l < f.Bits; l++ {
+		for _, m := range []uint64{0xffffffff00000000, 0x00000000ffffffff, 0xffffffffffffffff, 0x8000000000000000, 0x0000000100000000} {
+			v := new(big.Int).Lsh(new(big.Int).SetUint64(m), uint(64*l))
+			if v.Cmp(lim) < 0 {
+				out = append(out, v)
+			}
+		}
+	}
+	return out
+}
+
+// FromInternal maps an internal representation a to the value it stands for
+// (a·R⁻¹ mod P for Montgomery types, a itself otherwise).
+func (f *F) FromInternal(a *big.Int) *big.Int {
+	if f.R == nil {
+		return new(big.Int).Set(a)
+	}
+	v := new(big.Int).Mul(a, new(big.Int).ModInverse(f.R, f.P))
+	return v.Mod(v, f.P)
+}
+
+// ToInternal is the inverse of FromInternal.
+func (f *F) ToInternal(v *big.Int) *big.Int {
+	if f.R == nil {
+		return new(big.Int).Set(v)
+	}
+	a := new(big.Int).Mul(v, f.R)
+	return a.Mod(a, f.P)
+}
+
+// DrawSecond draws the second operand of an equality test: the same value, a
+// neighbour whose internal representation differs from x's by one pattern
+// (single bit / one-limb mask), or an independent operand.
+func (f *F) DrawSecond(t *rapid.T, xv *big.Int, xc string, label string) (*big.Int, string) {
+	switch rapid.IntRange(0, 3).Draw(t, label+".rel") {
+	case 0:
+		return xv, xc
+	case 1, 2:
+		pats := f.InternalPatterns()
+		d := pats[rapid.IntRange(0, len(pats)-1).Draw(t, label+".pat")]
+		a := f.ToInternal(xv)
+		// flip the pattern's bits where that stays inside the domain, otherwise add it
+		b := new(big.Int).Xor(a, d)
+		lim := Pow2(f.Bits)
+		if f.Reduced {
+			lim = f.P
+		}
+		if b.Cmp(lim) >= 0 {
+			b.Add(a, d).Mod(b, lim)
+		}
+		return f.FromInternal(b), "internal-neighbour"
+	}
+	return f.Operand(t, label)
 }
 
 // MontOperand draws a value whose Montgomery representation a = v·R mod P is
